@@ -73,7 +73,9 @@ SameIn(q) == \E i, j \in DOMAIN q : i < j /\ q[i] = q[j]
 Exercised ==
   IF ev.name # "CreateRecord" THEN {} ELSE
   {c \in {"create_ok", "multi_msg", "identical_in_tx", "identical_in_block", "identical_later",
-          "invalid_rej", "poison_rej", "rest_nonempty", "after_rollback"} :
+          "invalid_rej", "poison_rej", "rest_nonempty", "after_rollback",
+          "fid_multi_entry", "fid_four_entries", "fid_share_digest", "fid_identical_entries",
+          "fid_algo_only", "fid_empty_meta", "fid_long_meta", "fid_long_digest", "fid_reordered"} :
      CASE c = "create_ok" -> ev.ok
        [] c = "multi_msg" -> ev.ok /\ Len(ev.digests) > 1
        [] c = "identical_in_tx" -> ev.ok /\ SameIn(ev.digests)
@@ -82,7 +84,17 @@ Exercised ==
        [] c = "invalid_rej" -> ~ev.ok /\ ~ev.poison
        [] c = "poison_rej" -> ~ev.ok /\ ev.poison
        [] c = "rest_nonempty" -> ev.ok /\ obs.restN > 0
-       [] c = "after_rollback" -> gh.afterRb}
+       [] c = "after_rollback" -> gh.afterRb
+       \* fidelity: shapes of the submitted entry lists (ev.shape, from the harness)
+       [] c = "fid_multi_entry" -> ev.ok /\ "multi_entry" \in Range(ev.shape)
+       [] c = "fid_four_entries" -> ev.ok /\ "four_entries" \in Range(ev.shape)
+       [] c = "fid_share_digest" -> ev.ok /\ "share_digest" \in Range(ev.shape)
+       [] c = "fid_identical_entries" -> ev.ok /\ "identical_entries" \in Range(ev.shape)
+       [] c = "fid_algo_only" -> ev.ok /\ "algo_only" \in Range(ev.shape)
+       [] c = "fid_empty_meta" -> ev.ok /\ "empty_meta" \in Range(ev.shape)
+       [] c = "fid_long_meta" -> ev.ok /\ "long_meta" \in Range(ev.shape)
+       [] c = "fid_long_digest" -> ev.ok /\ "long_digest" \in Range(ev.shape)
+       [] c = "fid_reordered" -> ev.ok /\ "reordered" \in Range(ev.shape)}
 Coverage == Exercised = {} \/ PrintT(<<"EXERCISED", Exercised>>)
 
 Report == (l = Len(Trace) + 1) => PrintT(<<"TRACE-END", Len(Trace), drift, driftAt>>)
